@@ -27,7 +27,7 @@ RULE = ("one run = 1-3 tests, each a schedule over 1-3 bound mutable objects: co
         "interleaved with in-place mutations (append / clear / item assignment / attribute assignment / inner-element mutation / alias mutation), "
         "create (+fix with previous content) approved; distinct = (operation, kind of object, mutation, position of the mutation relative to "
         "the comparisons); non-trivial = at least one mutation after a comparison of the same object")
-RULE += " Dimensions added while testing against seeded changes: BadList: a list subclass that overrides only __eq__ and whose deep copy is not equal to it; rejected sub-snapshot keys."
+RULE += " Dimensions added while testing against seeded changes: BadList: a list subclass that overrides only __eq__ and whose deep copy is not equal to it; rejected sub-snapshot keys; an == snapshot with an Is() part evaluated three times while the compared list grows."
 ASSUMPTIONS = ["a == site observed with two different values keeps the copy taken at its first comparison (the second value is the same object after a mutation)", "<= / >= use lists of ints (totally ordered)"]
 REAL_VS_STUB = {
     "real": ["inline_snapshot library from /repo/src (clone = deepcopy + equality self-check)", "Example.run_inline (bulk)", "pytest + plugin (sample)"],
